@@ -48,7 +48,7 @@ def runs(tier):
     for i, g in enumerate(([11], [12, 2], [2, 10], [3, 13])):
         cfgs.append(mk(g, shuffle=(i % 2 == 0), pool=(i % 2 == 1), kind=("nested", "flat")[i == 2]))
     out.append(dict(name="C01_big", configs=cfgs, max_perm=5, check=False,
-                    simulate=150 if tier == "quick" else 2500, depth=250))
+                    simulate=150 if tier == "quick" else 6000, depth=250))
     # several hundred settings through a pool (beyond any window an executor adapter might use)
     out.append(dict(name="C01_huge", configs=[mk([4, 4, 3, 3, 2], shuffle=False, pool=True, kind="nested")] +
                     ([mk([4, 4, 4, 3, 2], shuffle=True, pool=True, kind="flat")] if tier == "thorough" else []),
@@ -74,7 +74,7 @@ def run(rep):
                 "submit/complete/collect interleaving for N<=3 (N=4 for 4 shapes), sampled beyond; each terminal behaviour is replayed. "
                 "distinct = distinct (config, permutation, event history, data-refinement variant); non-trivial = N >= 2")
     rep.assumptions = ASSUME
-    sweep.drive(rep, with_constants(runs(rep.tier)), "C01", n_variants=1 if rep.tier == "quick" else 2)
+    sweep.drive(rep, with_constants(runs(rep.tier)), "C01", n_variants=1 if rep.tier == "quick" else 4)
     rep.exhaustive = False
     # code -> spec: executions with the real seeded shuffle and real thread / process pools, validated by SweepTrace.tla
     traces = sweep.record_real_runs(rep.seed, 24 if rep.tier == "quick" else 120)
